@@ -257,8 +257,12 @@ impl CanonicalRequest {
                         pq.push_str(&qs);
                     }
 
-                    parts.uri =
-                        Uri::builder().path_and_query(pq).build().expect("failed to rebuild URI with new query string");
+                    parts.uri = Uri::builder().path_and_query(pq).build().map_err(|e| {
+                        SignatureError::MalformedQueryString(format!(
+                            "Failed to rebuild URI with form parameters from the request body: {}",
+                            e
+                        ))
+                    })?;
                     body = Bytes::from("");
                 }
             }
